@@ -609,6 +609,11 @@ def invalid_case(ctx, o, cur, kind):
         attempts.append(("from_der", lambda: VerifyingKey.from_der(D.spki(x, y, size, cur.oid))))
         attempts.append(("from_public_point", lambda: VerifyingKey.from_public_point(E.PointJacobi(cur.curve, x, y, 1), curve=cur)))
         attempts.append(("Public_key", lambda: EE.Public_key(cur.generator, E.PointJacobi(cur.curve, x, y, 1), True)))
+        if kind == "other-curve" and x < p and y < p:
+            # the same foreign point as an OBJECT that lives on its own curve: it is valid there, not here
+            attempts.append(("from_public_point-foreign-object", lambda: VerifyingKey.from_public_point(E.PointJacobi(other.curve, x, y, 1), curve=cur)))
+            attempts.append(("Public_key-foreign-object", lambda: EE.Public_key(cur.generator, E.PointJacobi(other.curve, x, y, 1), True)))
+            attempts.append(("from_public_point-foreign-affine", lambda: VerifyingKey.from_public_point(E.Point(other.curve, x, y), curve=cur)))
 
         def ecdh_bytes():
             e = ECDH(curve=cur, private_key=SigningKey.from_secret_exponent(3, curve=cur))
